@@ -120,6 +120,8 @@ impl GenerationPass for AvailableValuePass {
         #[allow(clippy::mutable_key_type)]
         let mut visited = HashSet::new();
         while changed {
+            #[cfg(feature = "verif-hooks")]
+            crate::verif_hooks::sweep(crate::verif_hooks::Pass::AvailableValue);
             changed = false;
             for node in cfg.iter() {
                 // in[n] = AND out[p] for all p in prev[n]
